@@ -91,6 +91,7 @@ impl CompactionWorker {
                 log::info!("Compaction thread initializing.");
                 let database_state = db_state;
                 let mut task_queue: VecDeque<TaskKind> = VecDeque::new();
+                let mut is_terminating = false;
 
                 loop {
                     log::info!("Compaction thread waiting for tasks.");
@@ -112,6 +113,7 @@ impl CompactionWorker {
                                     "Compaction thread received the termination command. \
                                     Shutting down the thread."
                                 );
+                                is_terminating = true;
                                 break;
                             }
                         }
@@ -150,7 +152,10 @@ impl CompactionWorker {
                     #[cfg(feature = "verif")]
                     crate::verif::pause("worker.idle", &[]);
 
-                    if database_state.is_shutting_down.load(Ordering::Acquire) {
+                    // Only the termination command ends the thread. Leaving as soon as the shutdown
+                    // flag is seen would abandon a task that is still waiting in the channel, and
+                    // closing the database waits for that task to report back.
+                    if is_terminating {
                         log::info!("Compaction thread terminated.");
                         break;
                     }
